@@ -643,6 +643,32 @@ func (c *specCtx) call(x *ECall) sval {
 		return sval{term: "(" + fx.implPred(t) + " " + v.term + ")", typ: tBool, sort: "Bool"}
 	case "noneset":
 		return sval{term: "((as const (Array Int Bool)) false)", sort: "(Array Int Bool)"}
+	case "zeropointee":
+		// zeropointee(argK): the object that the pointer boxed in interface argument argK points to is zero-valued
+		id, ok := x.Args[0].(*EIdent)
+		if !ok || c.ssaArgs == nil {
+			panic(specErr("zeropointee() needs a call argument name"))
+		}
+		sv, ok := c.ssaArgs[id.Name]
+		if !ok {
+			panic(specErr("zeropointee(%s): no such argument", id.Name))
+		}
+		var ptr ssa.Value = sv
+		if mi, ok := sv.(*ssa.MakeInterface); ok {
+			ptr = mi.X
+		}
+		pt, isPtr := ptr.Type().Underlying().(*types.Pointer)
+		if !isPtr {
+			panic(specErr("zeropointee(%s): argument is not a (boxed) pointer", id.Name))
+		}
+		o := fx.operand(c.cur, ptr)
+		var cur string
+		if o.addr != nil {
+			cur = fx.loadAddr(c.cur, o.addr)
+		} else {
+			cur = fx.loadAddr(c.cur, fx.addrOfRef(o.term, pt.Elem()))
+		}
+		return sval{term: "(= " + cur + " " + fx.d.Zero(pt.Elem()) + ")", typ: tBool, sort: "Bool"}
 	case "iszero":
 		v := c.eval(x.Args[0])
 		if v.typ == nil {
